@@ -323,7 +323,9 @@ impl<'a> Gen<'a> {
                 K::Fork => (5, false),
                 K::Switch => (5, false),
                 K::CapsWord => (2, true),
-                K::SeqLeader => (if self.p.sequences { 3 } else { 0 }, true),
+                // (a virtual key that starts sequence mode can be the target of a defseq whose keys it
+                // types itself: a configuration-level loop)
+                K::SeqLeader => (if self.p.sequences && !c.in_vkey { 3 } else { 0 }, true),
                 K::SeqNoerase => (if self.p.sequences { 1 } else { 0 }, true),
                 K::Unmod => (3, true),
                 K::Unshift => (2, true),
